@@ -120,12 +120,19 @@ func Parse(args []string, specs []*OptionSpec, cfg Config) ([]*Option, []string,
 	if opt != nil {
 		err = fmt.Errorf("missing argument for %s", optionPart(opt))
 	}
+	validOpts := opts[:0:0]
 	for _, opt := range opts {
 		if opt.Unknown {
 			err = errutil.Multi(err, fmt.Errorf("unknown option %s", optionPart(opt)))
+		} else if opt.Spec.Arity == NoArgument && opt.Argument != "" {
+			// --flag=value for an option that takes no argument; like an
+			// option whose required argument is missing, it is not returned.
+			err = errutil.Multi(err, fmt.Errorf("option %s takes no argument", optionPart(opt)))
+			continue
 		}
+		validOpts = append(validOpts, opt)
 	}
-	return opts, nonOptArgs, err
+	return validOpts, nonOptArgs, err
 }
 
 func optionPart(opt *Option) string {
